@@ -1553,6 +1553,7 @@ func Run(r *common.Run) error {
 	// ---- several sessions on one feature value ----
 	genConcurrent(r, rnd)
 	genConcMixed(r, rnd)
+	genConcClientMixed(r, rnd)
 	if !r.Race() {
 		genProbes(r)
 	}
@@ -2158,9 +2159,9 @@ func replayLine(r *common.Run, l string) error {
 		return out, nil
 	}
 	switch {
-	case f[0] == "gate" || f[0] == "gaterun" || f[0] == "gs2" || f[0] == "opts":
+	case f[0] == "gate" || f[0] == "gaterun" || f[0] == "gs2" || f[0] == "opts" || f[0] == "optstls" || f[0] == "failc":
 		return replayProbe(r, l)
-	case f[0] == "concs" || f[0] == "concc" || f[0] == "concm":
+	case f[0] == "concs" || f[0] == "concc" || f[0] == "concm" || f[0] == "concx":
 		return replayConc(r, f)
 	case f[0] == "clie" && len(f) == 7:
 		st, err := steps(f[5])
